@@ -45,7 +45,8 @@ def value_shapes(ctx, P, term, depth=6, seen=None):
             # result of calling a closure value: look at what the closure returns
             if name.endswith('::call') or name.endswith('::call_mut') or name.endswith('::call_once'):
                 got = False
-                for cr, cp in P.root(P.call_args(r)[0]):
+                for cr, cp in P.root(P.call_args(r)[0], through_params=True):   # the closure may be handed down through several functions
+                    cr = P.unbound(cr) if cr[0] == 'bound' and P.unbound(cr)[0] == 'agg' else cr
                     if cr[0] == 'agg' and P._agg_rv(cr)['adt'] == 'closure':
                         body = F.fns.get(P._agg_rv(cr)['adt_id'])
                         if body is not None:
@@ -226,7 +227,7 @@ def run(ctx):
         for g in table.bodies(m):
             for _, t in g.calls():
                 if callee_is(t, 'HashMap::remove', 'HashMap::remove_entry'):
-                    rs = P.root(P.operand(g, t['args'][1]), through_params=table.is_helper)
+                    rs = P.root(P.operand(g, t['args'][1]), through_params=table.is_helper, callers={b_.id for b_ in table.bodies(m)})
                     tm = {x.id for x in table.methods}
                     if rs and any(r[0] == 'param' and r[1] == m.id for r, _ in rs) and all(r[0] == 'param' and r[1] in tm for r, _ in rs) \
                             and m not in keyed_completing and not table.is_helper(m):
@@ -236,11 +237,11 @@ def run(ctx):
     for g in table.bodies(comp):
         for bb, t in g.calls():
             if callee_is(t, 'HashMap::remove', 'HashMap::remove_entry'):
-                for r, p in P.root(P.operand(g, t['args'][1]), through_params=table.is_helper):
+                for r, p in P.root(P.operand(g, t['args'][1]), through_params=table.is_helper, callers={b_.id for b_ in table.bodies(comp)}):
                     if r[0] == 'param' and r[1] == comp.id:
                         ckey = r[2]
             if callee_is(t, 'oneshot::Sender::send'):
-                for r, p in P.root(P.operand(g, t['args'][1]), through_params=table.is_helper):
+                for r, p in P.root(P.operand(g, t['args'][1]), through_params=table.is_helper, callers={b_.id for b_ in table.bodies(comp)}):
                     if r[0] == 'param' and r[1] == comp.id:
                         cval = r[2]
     R.ob('C01.4', ('client table completing removal', 'removes by its key parameter'), ckey is not None,
@@ -373,8 +374,8 @@ def run(ctx):
          'the dispatch does not complete because a response was read (only because the read side ended, or the write side was closed with nothing in flight): an unmatched response is not mistaken for the end of the stream',
          [poll.loc(poll.d)], 'offending (R last, closed, table empty): %s' % bad_)
     R.count('completion_send_sites', len(sends))
-    if len(sends) < 4:
-        raise CannotDecide('only %d completion send sites found (floor 4)' % len(sends))
+    if len(sends) < 2:
+        raise CannotDecide('only %d completion send sites found (floor 2: the response path and at least one error path)' % len(sends))
 
 
 EXTRA_CONFIGS = ('default', 'tokio1', 'serde1', 'serde-transport')   # feature configurations re-analysed in the thorough tier
